@@ -327,5 +327,11 @@ def check(ctx, env):
     # the RTO the schedule is built from is the configured / estimated one: RttCalcuator::new stores it unchanged, rto() reads it back
     from . import c15
     c15.r15_3_config_path(ctx, prog, rule="R6.3")
+    # a later request's schedule starts from the estimator's RTO: a retransmitted transaction must not feed it (Karn's rule:
+    # the retransmission clears the send instant) - else a quick answer after a retransmission shrinks every later schedule
+    ctx.rule("R6.6", "a retransmission clears transaction.instant, so a retransmitted request contributes no RTT sample to the RTO "
+                     "later schedules start from (= C15 R15.1, on_timeout part)")
+    from . import client_rules as R_
+    R_.r15_1_karn_timeout(ctx, prog, rule="R6.6")
     if env.tier == "thorough":
         r6_5_default_schedule(ctx, prog)
